@@ -185,3 +185,10 @@ fn convert_error(e: std::fmt::Error) -> SchemaError {
 		e,
 	))
 }
+
+/// Verification harness mount point (only compiled under `cargo kani`; source lives outside this repository)
+#[cfg(kani)]
+#[allow(unused, missing_docs)]
+pub(crate) mod verif {
+	include!(concat!(env!("SAF_VERIF"), "/canonical_form.rs"));
+}
